@@ -83,6 +83,13 @@ class CallMixin(object):
             b = self.rd(base) if not isinstance(base, (ScalarVar, CellRef)) else base
             if isinstance(b, PtrV) and b.target is not None:
                 b = b.target
+            if isinstance(b, PtrSlot) and getattr(callee, 'smart', False):
+                if name == 'reset' and not arg_nodes:
+                    self.assign(b.null_lv(), True)
+                    return VOID
+                if name == 'get':
+                    return b
+                fail(n, 'smart pointer member %s' % name)
             if isinstance(b, PtrSlot):
                 return self.call_through_pointer(b, name, arg_nodes, n)
             if isinstance(b, CondObj):
@@ -404,7 +411,10 @@ class CallMixin(object):
             self.ev(arg_nodes[0])
             return StrTmp(False)
         if name in ('make_unique',):
-            fail(n, 'make_unique outside the pointer route')
+            from translate_expr import OwnedNew
+            if arg_nodes:
+                fail(n, 'make_unique with constructor arguments')
+            return OwnedNew(None)
         v = self.lookup(name)
         if v is not None:
             return self.call(v, arg_nodes, n)
@@ -481,6 +491,11 @@ class CallMixin(object):
             if isinstance(v, StrV):
                 return StrTmp(v.empty())
             return v if isinstance(v, StrTmp) else StrTmp(False)
+        if td.kind == 'uptr' and len(arg_nodes) == 1:
+            from translate_expr import OwnedNew
+            v = self.ev(arg_nodes[0])
+            if isinstance(v, OwnedNew):
+                return v
         fail(n, 'construction of %s' % tstr)
 
     # ------------------------------------------------------------------------------------------------------ member functions
